@@ -390,7 +390,7 @@ Plan generate(Rng &rng, const Opts &opts, uint64_t)
         } else if (r < 95) {
             p.steps.push_back(mk(0, "PRINT_AUTO"));
         } else if (r < 98) {
-            p.steps.push_back(mk(0, "SWAPMODEL", {long(rng.below(1000))}));
+            p.steps.push_back(mk(0, "SWAPMODEL", {long(rng.below(1000)), long(rng.below(3) == 0)}));
         } else {
             p.steps.push_back(mk(0, "SETMODEL"));
         }
@@ -879,7 +879,13 @@ void execute(const Plan &plan, Ctx &ctx)
                 continue;
             }
             std::swap(w.model, w.alt);
-            w.annotator->setModel(w.model);
+            if (s.arg(1) != 0) {
+                // handed over through the overload that takes the model along: same effect on what the annotator works with
+                w.annotator->assignAllIds(w.model);
+                ctx.count("annotator_given_another_model_through_assignAllIds");
+            } else {
+                w.annotator->setModel(w.model);
+            }
             w.annotatorHasModel = true;
             w.editsSinceRefresh = 0;
             w.idEditsSinceRefresh = 0;
